@@ -25,8 +25,8 @@ import tomllib
 
 VERIF = os.path.dirname(os.path.dirname(os.path.abspath(__file__)))
 REPO = os.environ.get("VERIF_REPO", "/repo")
-EVID = os.path.join(VERIF, "evidence")
-REPLAYS = os.path.join(VERIF, "replays")
+EVID = os.environ.get("VERIF_EVIDENCE_DIR") or os.path.join(VERIF, "evidence")
+REPLAYS = os.path.join(os.environ["VERIF_EVIDENCE_DIR"], "replays") if os.environ.get("VERIF_EVIDENCE_DIR") else os.path.join(VERIF, "replays")
 UNITS_DIR = os.path.join(VERIF, "units")
 KNOWN = os.path.join(VERIF, "known_findings.json")
 RSS_LIMIT_KB = int(os.environ.get("VERIF_RSS_LIMIT_GB", "20")) * 1024 * 1024
@@ -428,7 +428,8 @@ def kani_collect(data, out, note, units, harnesses, res, package):
         if unwind_fail:
             res.undecided.append("%s: harness %s: unwinding assertion failed (bound too small)" % (u["id"], hname))
             continue
-        for n in declared - set(seen):
+        pf = {u["id"] + ".panic_free"} if h["panic_free"] else set()
+        for n in declared - set(seen) - pf:
             res.undecided.append("%s: harness %s: declared obligation %s produced no check (vacuous)" % (u["id"], hname, n))
         for n in set(seen) - declared:
             res.undecided.append("%s: harness %s: undeclared obligation %s in results" % (u["id"], hname, n))
@@ -456,8 +457,7 @@ def kani_collect(data, out, note, units, harnesses, res, package):
                 if o["status"] == "discharged":
                     o["status"] = "undecided"
                 res.undecided.append("%s: obligation %s status %s in %s" % (u["id"], n, sts, hname))
-            elif all(s == "Unreachable" for s in sts) and o["status"] == "discharged" and o["instances"] == len(sts):
-                o["status"] = "unreachable"
+            o["n_success"] = o.get("n_success", 0) + sum(1 for x in sts if x == "Success")
         if other_fail:
             if h["panic_free"]:
                 n = u["id"] + ".panic_free"
@@ -486,9 +486,6 @@ def kani_collect(data, out, note, units, harnesses, res, package):
                 else:
                     res.cover_lost.append("%s/%s:%s=%s" % (u["id"], hname, cv, covers.get(cv)))
     # unreachable obligations are vacuous
-    for n, o in res.obl.items():
-        if o["status"] == "unreachable":
-            res.undecided.append("obligation %s unreachable in every instance (vacuous)" % n)
     # canary
     for hname, (u, h) in hmap.items():
         if not h.get("canary"):
@@ -1005,6 +1002,10 @@ def check_declared(units, res):
             declared.add(o["name"])
     if not declared:
         res.undecided.append("no obligations declared for this tier (vacuous)")
+    for n, o in res.obl.items():
+        if o["engine"] == "kani" and o["status"] == "discharged" and not n.endswith(".panic_free") and o.get("n_success", 0) == 0:
+            o["status"] = "unreachable"
+            res.undecided.append("obligation %s unreachable in every instance (vacuous)" % n)
     for n in declared - set(res.obl):
         res.undecided.append("declared obligation %s has no verdict" % n)
     # overlay text must mention every harness-form obligation (keeps units.toml honest)
